@@ -365,6 +365,9 @@ def gen_implied_ties(r, count, noise):
     return out
 
 
+gen_singleton_equations = lpgen.gen_singleton_equations
+
+
 def gen_presolve_lp(r, nmax):
     if r.random() < 0.06:
         return gen_pseudoobj(r, nmax)
@@ -733,6 +736,12 @@ def main():
         for p in gen_implied_ties(r, 64 if ck.tier == "quick" else 384, ck.tier != "quick"):
             lps.append(p)
             tagsets.append(["implied-tie"])
+        for p in gen_singleton_equations(r, 72 if ck.tier == "quick" else 288):
+            lps.append(p)
+            tagsets.append(["singleton-equation"])
+        for p in lpgen.gen_forcing_rows(r, 72 if ck.tier == "quick" else 384):
+            lps.append(p)
+            tagsets.append(["forcing-row"])
     nties = len(lps) - ncorpus
     nlp += nties
     while len(lps) < nlp + ncorpus:
